@@ -4,7 +4,7 @@ from pyvc import logic as L
 from pyvc.logic import Node, Str, null, none_s, text, attrib
 from pyvc.values import *
 from pyvc.state import State
-from pyvc.contracts import contract, Contract, Case
+from pyvc.contracts import contract, Contract, Case, REGISTRY
 from .common import A, Imp
 from .assumed_lib import wellformed, parse_root, file_text, file_readable
 
@@ -209,3 +209,198 @@ class MosFileStr(Contract):
 
     def raises(self, cx, ex):
         return [('C14+C12.serialising_never_raises[%s]' % ex.value.name(), z3.BoolVal(False))]
+
+
+# ------------------------------------------------------------------ S3 source and readers (C18)
+s3_content = L.mkfun('s3_content', Str, Str, Str)
+
+
+@contract('mosromgr.utils.s3.get_file_contents')
+class GetFileContents(Contract):
+    props = ('C18',)
+    opaque = False
+
+    def entry(self, E):
+        st = State(L.Heap(0, 0), z3.IntVal(0))
+        b, k = SStr(E.W.fresh('bucket', Str)), SStr(E.W.fresh('key', Str))
+        st.assume(b.t != none_s, k.t != none_s)
+        return st, {'bucket_name': b, 'file_key': k}
+
+    def ensures(self, cx, ex):
+        v = ex.value
+        return [('C18.returns_the_bytes_stored_under_the_key',
+                 v.t == s3_content(cx.str('bucket_name'), cx.str('file_key')) if isinstance(v, SStr) else z3.BoolVal(False))]
+
+    def raises(self, cx, ex):
+        return [('C18.download_does_not_fail_in_the_library', z3.BoolVal(False))]
+
+
+@contract('mosromgr.mostypes.MosFile.from_s3')
+class FromS3(FromBase):
+    props = ('C08', 'C12', 'C18')
+
+    def entry(self, E):
+        st = State(L.Heap(0, 0), z3.IntVal(0))
+        b, k = SStr(E.W.fresh('bucket', Str)), SStr(E.W.fresh('key', Str))
+        st.assume(b.t != none_s, k.t != none_s)
+        return st, {'cls': SCls(E.repo.cls('MosFile')), 'bucket_name': b, 'mos_file_key': k}
+
+    def content(self, cx): return s3_content(cx.str('bucket_name'), cx.str('mos_file_key'))
+    def doc_root(self, cx): return parse_root(self.content(cx))
+    def ok(self, cx): return wellformed(self.content(cx))
+    def malformed(self, cx): return z3.Not(wellformed(self.content(cx)))
+
+
+BASE_TAG = {v: k for k, v in TABLE.items() if v}
+for _c in EA_TABLE.values():
+    BASE_TAG[_c] = 'roElementAction'
+
+
+def schema_doc(W, H, root):
+    """schema-shaped envelope: integer messageID, and the message element (whichever it is) carries a roID"""
+    mid = H.find(root, W.lit('messageID'))
+    fs = [mid != null, L.is_int(text(mid))]
+    for tag in TABLE:
+        fs.append(Imp(present(W, H, root, tag), H.find(H.find(root, W.lit(tag)), W.lit('roID')) != null))
+    return A(*fs)
+
+
+class ReaderFrom(Contract):
+    """MosReader.from_string / from_file / from_s3: the reader reports the message id, running-order id and class of
+    the message, and stores the constructor of that class with the same arguments (so mos_object restores an equal object)"""
+    props = ('C18', 'C10', 'C09')
+    opaque = False
+    ctor = None          # name of the MosFile classmethod that must be stored as restore_fn
+
+    def requires(self, cx):
+        return [('document_is_schema_shaped_when_well_formed', Imp(self.ok(cx), schema_doc(cx.W, cx.H, self.doc_root(cx))))]
+
+    def ensures(self, cx, ex):
+        v = ex.value
+        W, H = cx.W, cx.H
+        root = self.doc_root(cx)
+        if not isinstance(v, SObj) or v.cls.name != 'MosReader':
+            return [('C18.returns_a_reader', z3.BoolVal(False))]
+        f = ex.st.fields(v)
+        mt = f['_mos_type']
+        cname = mt.cls.name if isinstance(mt, SCls) and not isinstance(mt.cls, str) else None
+        probe = SObj(mt.cls, 0) if cname else None
+        out = [('C18.reader_only_for_a_well_formed_document', self.ok(cx))]
+        out.append(('C18+C10.reader_reports_the_numeric_message_id',
+                    f['_message_id'].t == L.int_of(text(H.find(root, W.lit('messageID')))) if isinstance(f['_message_id'], SInt) else z3.BoolVal(False)))
+        out += [('C18.reader_reports_the_class_the_library_assigns', class_clauses(W, H, root, probe)[0][1] if probe else z3.BoolVal(False))]
+        bt = BASE_TAG.get(cname)
+        out.append(('C18.reader_reports_the_running_order_id',
+                    f['_ro_id'].t == text(H.find(H.find(root, W.lit(bt)), W.lit('roID'))) if bt and isinstance(f['_ro_id'], SStr) else z3.BoolVal(False)))
+        rf, ra = f['_restore_fn'], f['_restore_args']
+        ok_fn = isinstance(rf, SFunc) and rf.fi is not None and rf.fi.qualname == 'mosromgr.mostypes.MosFile.' + self.ctor and \
+            isinstance(rf.self_val, SCls) and rf.self_val.cls is mt.cls
+        args = self.ctor_args(cx)
+        ok_args = isinstance(ra, STuple) and len(ra.items) == len(args)
+        out.append(('C18.restores_through_the_constructor_of_the_same_class_with_the_same_arguments',
+                    A(z3.BoolVal(ok_fn and ok_args), *[a.t == b.t for a, b in zip(ra.items, args)]) if ok_args else z3.BoolVal(False)))
+        return out
+
+    def raises(self, cx, ex):
+        name = ex.value.name()
+        if name in self.other_errors:
+            return [('C18.%s_only_for_an_unreadable_source' % name, self.unreadable(cx))]
+        return [('C18+C12.only_library_exceptions[%s]' % name, z3.BoolVal(exc_isinstance(ex.value.cls, 'MosRoMgrException')))]
+
+    other_errors = ()
+
+
+@contract('mosromgr.moscollection.MosReader.from_string')
+class ReaderFromStringBody(ReaderFrom):
+    ctor = 'from_string'
+
+    def entry(self, E):
+        st = State(L.Heap(0, 0), z3.IntVal(0))
+        s = SStr(E.W.fresh('doc', Str))
+        st.assume(s.t != none_s)
+        return st, {'cls': SCls(E.repo.cls('MosReader')), 'mos_file_contents': s}
+
+    def doc_root(self, cx): return parse_root(cx.str('mos_file_contents'))
+    def ok(self, cx): return wellformed(cx.str('mos_file_contents'))
+    def ctor_args(self, cx): return [cx.a['mos_file_contents']]
+
+
+@contract('mosromgr.moscollection.MosReader.from_file')
+class ReaderFromFileBody(ReaderFrom):
+    ctor = 'from_file'
+    other_errors = ('OSError',)
+
+    def entry(self, E):
+        st = State(L.Heap(0, 0), z3.IntVal(0))
+        s = SStr(E.W.fresh('path', Str))
+        st.assume(s.t != none_s)
+        return st, {'cls': SCls(E.repo.cls('MosReader')), 'mos_file_path': s}
+
+    def doc_root(self, cx): return parse_root(file_text(cx.str('mos_file_path')))
+    def ok(self, cx): return A(file_readable(cx.str('mos_file_path')), wellformed(file_text(cx.str('mos_file_path'))))
+    def unreadable(self, cx): return z3.Not(file_readable(cx.str('mos_file_path')))
+    def ctor_args(self, cx): return [cx.a['mos_file_path']]
+
+
+@contract('mosromgr.moscollection.MosReader.from_s3')
+class ReaderFromS3Body(ReaderFrom):
+    ctor = 'from_s3'
+
+    def entry(self, E):
+        st = State(L.Heap(0, 0), z3.IntVal(0))
+        b, k = SStr(E.W.fresh('bucket', Str)), SStr(E.W.fresh('key', Str))
+        st.assume(b.t != none_s, k.t != none_s)
+        return st, {'cls': SCls(E.repo.cls('MosReader')), 'bucket_name': b, 'mos_file_key': k}
+
+    def content(self, cx): return s3_content(cx.str('bucket_name'), cx.str('mos_file_key'))
+    def doc_root(self, cx): return parse_root(self.content(cx))
+    def ok(self, cx): return wellformed(self.content(cx))
+    def ctor_args(self, cx): return [cx.a['bucket_name'], cx.a['mos_file_key']]
+
+
+# the functional, caller-facing view (used inside comprehensions of MosCollection.from_*) stays available
+from . import collection as _col
+for _q, _cls in (('mosromgr.moscollection.MosReader.from_string', _col.ReaderFromString), ('mosromgr.moscollection.MosReader.from_file', _col.ReaderFromFile)):
+    _inst = REGISTRY[_q]
+    type(_inst).opaque = True
+    type(_inst).cases = _cls.cases
+
+
+@contract('mosromgr.moscollection.MosReader.mos_object')
+class MosObjectBody(Contract):
+    """body proof of MosReader.mos_object for a reader built by from_string, one variant per message class;
+    MosCollection.merge uses the caller-facing view (collection.ReaderMosObject)"""
+    props = ('C18', 'C09')
+    opaque = True
+
+    def entry(self, E):
+        out = []
+        fs = E.repo.functions['mosromgr.mostypes.MosFile.from_string']
+        for cname in sorted(set(BASE_TAG)):
+            st = State(L.Heap(0, 0), z3.IntVal(0))
+            s = SStr(E.W.fresh('doc', Str))
+            st.assume(s.t != none_s)
+            cls = E.repo.cls(cname)
+            rd = SObj(E.repo.cls('MosReader'), st.new_obj(None))
+            st.objs[rd.oid] = {'_message_id': SInt(E.W.fresh('mid', L.I)), '_ro_id': SStr(E.W.fresh('roid', Str)), '_mos_type': SCls(cls),
+                               '_restore_fn': SFunc(fs, self_val=SCls(cls)), '_restore_args': STuple([s]), '$doc': s}
+            out.append((st, {'self': rd}))
+        return out
+
+    def ensures(self, cx, ex):
+        rd = cx.a['self']
+        f = cx.st.fields(rd)
+        v = ex.value
+        s = f['$doc']
+        ok = isinstance(v, SObj) and v.cls is f['_mos_type'].cls
+        return [('C18+C09.restores_an_object_of_the_recorded_class_over_a_fresh_parse_of_the_same_document',
+                 A(z3.BoolVal(ok), wellformed(s.t), ex.st.fields(v)['_xml'].t == parse_root(s.t)) if ok else z3.BoolVal(False))]
+
+    def raises(self, cx, ex):
+        s = cx.st.fields(cx.a['self'])['$doc']
+        return [('C18.restoring_fails_only_if_the_document_is_no_longer_well_formed[%s]' % ex.value.name(),
+                 A(z3.BoolVal(ex.value.name() == 'MosInvalidXML'), z3.Not(wellformed(s.t))))]
+
+
+MosObjectBody.cases = _col.ReaderMosObject.cases
+MosObjectBody.assumed = False
